@@ -35,9 +35,9 @@ def MSame {α : Type} (n : Nat) : EStateM.Result Exit St α → EStateM.Result E
   | .error e t, .error e' t' => e = e' ∧ Rel n t t'
   | _, _ => False
 
-/-- diverged: the cursor is beyond the common prefix, or the run starved at the end of its buffer -/
+/-- diverged: the cursor is beyond the common prefix, or the run starved (at the end of its buffer) at or beyond it -/
 def MDiv {α : Type} (n : Nat) (r : EStateM.Result Exit St α) : Prop :=
-  n < (resSt r).inPos ∨ ∃ t, r = .error .needInput t ∧ t.inp.size ≤ t.inPos
+  n < (resSt r).inPos ∨ ∃ t, r = .error .needInput t ∧ n ≤ t.inPos
 
 def MOut {α : Type} (n : Nat) (r r' : EStateM.Result Exit St α) : Prop := MSame n r r' ∨ (MDiv n r ∧ MDiv n r')
 
